@@ -228,7 +228,7 @@ def overridable (I : InstIn) (p : Ty) : Bool :=
 /-- is the projection `wild v _` permitted at parameter `p` (`others` = the later parameters)? -/
 def projAllowed (I : InstIn) (p : Ty) (others : List Ty) (v : Nat) : Bool :=
   match argVarianceP I.dis p I.vc others with
-  | .ok cands => cands.contains v
+  | .ok cands => v != 0 && cands.contains v
   | _ => false
 
 /-- the checks for one parameter `p` (with the later parameters `others`) and its argument `a`
